@@ -1,5 +1,7 @@
 package main
 
+import "strings"
+
 var commonAssumptions = []string{
 	"go/ssa (x/tools v0.50.0) lowers the repository faithfully; the gosx interpreter implements SSA semantics (validated against the real build by native replay of every counterexample)",
 	"integers are bit-vectors of the Go width (wrap-around is Go's); strings, pointers, slice lengths and plan shapes are concrete and enumerated by bounded case splits",
@@ -47,32 +49,41 @@ var properties = map[string]*Property{
 		OutsideClaim: []string{"count clause for Retries > R (R=2 quick, 3 thorough): VerifC05AnyRetries covers every Retries value for the other clauses but cuts the all-transient script after 4 (5) attempts",
 			"timeouts shorter than 5s; plugins that ignore cancellation forever (the engine abandons such a call by design)"},
 	},
-	"C01": eProp("C01", []eRun{{"VerifC01Seq", 0, 1, nil}, {"VerifC01PlanGroups", 1, 1, nil}, {"VerifC01BlockGroups", 1, 1, nil}, {"VerifC01Conc", 1, 2, []string{"plan completed", "plan failed"}}},
+	"C01": eProp("C01", []eRun{{"VerifC01Seq", 0, 1, nil}, {"VerifC01PlanGroups", 1, 1, nil}, {"VerifC01BlockGroups", 1, 1, nil}, {"VerifC01Conc", 1, 2, []string{"plan completed", "plan failed"}},
+		{"VerifC01Conc4@slow", 1, 1, nil}, {"VerifC01ContSeqs@slow", 1, 2, nil}, {"VerifC01Conc@slow", 1, 2, nil},
+		{"VerifC01Seq@slow:t", 1, 1, nil}, {"VerifC01PlanGroups@slow:t", 1, 1, nil}, {"VerifC01BlockGroups@slow:t", 1, 1, nil}},
 		[]string{"shapes beyond: <=2 blocks x <=2 sequences x <=2 actions without check groups; any subset of the five plan-level (resp. block-level) groups on a 1x1x1 plan; 2..3 (4) parallel sequences",
 			"continuous-check actions are exempt from the 'deferred checks come last' clause: block-level continuous checks are drained after the block's deferred checks by design"}),
-	"C02": eProp("C02", []eRun{{"VerifC02Conc", 1, 2, []string{"two sequences in flight"}}, {"VerifC02Seq", 0, 1, nil}},
-		[]string{"several plans on one Workstream (each plan has its own state-machine request; no shared limiter exists in the code)", "more than 3 (quick) / 4 (thorough) sequences per block"}),
-	"C03": eProp("C03", []eRun{{"VerifC03Conc", 1, 2, []string{"block failed by tolerance", "failures tolerated", "stopped at the exceeding failure"}}, {"VerifC03Seq", 0, 1, []string{"block failed by tolerance", "failures tolerated"}},
+	"C02": eProp("C02", []eRun{{"VerifC02Conc", 1, 2, []string{"two sequences in flight"}}, {"VerifC02Seq", 0, 1, nil}, {"VerifC02Conc@slow", 1, 2, []string{"two sequences in flight"}}},
+		[]string{"more than two plans on one executor (VerifMulti runs two)", "more than 3 sequences per block with symbolic Concurrency (4 with Concurrency 2 in C01/C04's Conc4 family)"}),
+	"C03": eProp("C03", []eRun{{"VerifC03Conc", 1, 2, []string{"block failed by tolerance", "failures tolerated", "stopped at the exceeding failure"}}, {"VerifC03Seq", 0, 1, []string{"block failed by tolerance", "failures tolerated"}}, {"VerifC03Conc@slow", 1, 2, []string{"block failed by tolerance", "failures tolerated"}},
 		{"VerifC03CrashSeq", 0, 0, []string{"crash while the plan is durably Running", "block failed by tolerance", "failures tolerated"}}},
 		[]string{"the literal 'never started once exceeded' is asserted through its schedule-robust consequences (failed <= tol+Concurrency; exact stop with Concurrency 1): between a sequence's last plugin exit and the engine's failure count another admitted sequence may legitimately start"}),
-	"C04": eProp("C04", []eRun{{"VerifC04Seq", 0, 1, nil}, {"VerifC04PlanGroups", 1, 1, nil}, {"VerifC04BlockGroups", 1, 1, nil}, {"VerifC04Conc", 1, 2, nil}},
-		[]string{"the waiter protocol of execute.Plans.runPlan/Wait (checked by C12's harness); that Reason survives storage is C13's obligation", "several plans running concurrently"}),
+	"C04": eProp("C04", []eRun{{"VerifC04Seq", 0, 1, nil}, {"VerifC04PlanGroups", 1, 1, nil}, {"VerifC04BlockGroups", 1, 1, nil}, {"VerifC04Conc", 1, 2, nil},
+		{"VerifC04Conc4@slow", 1, 1, nil}, {"VerifC04ContSeqs@slow", 1, 2, nil}, {"VerifC04Conc@slow", 1, 2, nil},
+		{"VerifC04Seq@slow:t", 1, 1, nil}, {"VerifC04PlanGroups@slow:t", 1, 1, nil}, {"VerifC04BlockGroups@slow:t", 1, 1, nil}},
+		[]string{"that Reason survives storage is C13's obligation", "more than two plans running concurrently on one executor (VerifMulti runs two, through execute.Plans.Start/Wait)"}),
 	"C06": eProp("C06", []eRun{{"VerifC06PlanGroups", 1, 1, []string{"plan bypassed", "plan bypass failed, plan ran", "plan pre-check failed", "plan initial cont-check failed"}},
-		{"VerifC06BlockGroups", 1, 1, []string{"block bypassed", "block pre-check failed", "block initial cont-check failed"}}, {"VerifC06BothGroups", 0, 1, nil}},
+		{"VerifC06BlockGroups", 1, 1, []string{"block bypassed", "block pre-check failed", "block initial cont-check failed"}}, {"VerifC06BothGroups", 0, 1, nil},
+		{"VerifC06PlanGroups@slow:t", 1, 1, nil}, {"VerifC06BlockGroups@slow:t", 1, 1, nil}},
 		[]string{"more than one action per check group in the quick tier (two in thorough)"}),
-	"C07": eProp("C07", []eRun{{"VerifC07PlanGroups", 1, 1, []string{"plan cont-check failed", "plan deferred checks ran"}}, {"VerifC07BlockGroups", 1, 1, []string{"block cont-check failed", "block deferred checks ran"}}},
-		[]string{"continuous-check runs beyond the K-th tick of each ticker (K=1 quick, 2 thorough)"}),
-	"C08": eProp("C08", []eRun{{"VerifC08Seq", 0, 1, nil}, {"VerifC08PlanGroups", 1, 1, nil}, {"VerifC08BlockGroups", 1, 1, nil}, {"VerifC08Conc", 1, 2, nil}},
+	"C07": eProp("C07", []eRun{{"VerifC07PlanGroups", 1, 1, []string{"plan cont-check failed", "plan deferred checks ran"}}, {"VerifC07BlockGroups", 1, 1, []string{"block cont-check failed", "block deferred checks ran"}},
+		{"VerifC07ContSeqs@slow", 1, 2, []string{"block cont-check failed"}},
+		{"VerifC07PlanGroups@slow:t", 1, 1, nil}, {"VerifC07BlockGroups@slow:t", 1, 1, nil}},
+		[]string{"continuous-check runs beyond the K-th tick of each ticker (K=2)"}),
+	"C08": eProp("C08", []eRun{{"VerifC08Seq", 0, 1, nil}, {"VerifC08PlanGroups", 1, 1, nil}, {"VerifC08BlockGroups", 1, 1, nil}, {"VerifC08Conc", 1, 2, nil}, {"VerifC08Conc@slow", 1, 2, nil}},
 		[]string{"polling histories are covered through the write log: every write to a block, sequence or sequence action that was durably Completed/Failed keeps that status (given atomic writes); waiter release itself is C12's harness"}),
 	"C09": eProp("C09", []eRun{{"VerifC09SeqSmall", 0, 0, []string{"crash while the plan is durably Running", "action invoked during recovery", "action not invoked during recovery"}},
 		{"VerifC09PlanGroups", 0, 0, []string{"crash while the plan is durably Running"}}, {"VerifC09BlockGroups", 0, 0, []string{"crash while the plan is durably Running"}},
-		{"VerifC09Conc", 0, 1, []string{"crash while the plan is durably Running", "action invoked during recovery"}}},
+		{"VerifC09Conc", 0, 1, []string{"crash while the plan is durably Running", "action invoked during recovery"}},
+		{"VerifC09Conc@slow:t", 0, 0, []string{"crash while the plan is durably Running", "action invoked during recovery"}}},
 		[]string{"crash points are the prefixes of the durable write log of a forward run (the crash index is a solver variable; the durable image is ite-encoded); in-memory state is lost, each write is atomic",
 			"shapes: one block with <=2 sequences x <=2 actions; 1x1x1 with the 7-subset family of plan-level resp. block-level groups (all 32 subsets in thorough); two parallel sequences",
 			"a second crash during recovery: thorough tier only (VerifC09Double)", "real process kill on a file-backed store is outside this technique"}),
 	"C10": eProp("C10", []eRun{{"VerifC10SeqSmall", 0, 0, []string{"crash while the plan is durably Running", "uninterrupted outcome Failed", "uninterrupted outcome Completed"}},
 		{"VerifC10PlanGroups", 0, 0, []string{"crash while the plan is durably Running"}}, {"VerifC10BlockGroups", 0, 0, []string{"crash while the plan is durably Running"}},
-		{"VerifC10Conc", 0, 1, []string{"crash while the plan is durably Running", "uninterrupted outcome Failed"}}},
+		{"VerifC10Conc", 0, 1, []string{"crash while the plan is durably Running", "uninterrupted outcome Failed"}},
+		{"VerifC10Conc@slow:t", 0, 0, []string{"crash while the plan is durably Running", "uninterrupted outcome Failed"}}},
 		[]string{"as C09; the outcome-equality clause is asserted with one verdict variable per action shared by both processes, on shapes without continuous checks",
 			"constructing a Workstream (coercion.New -> execute.New -> recover) is C11's harness; here States.Recovery is entered directly with the plan a vault Read returns"}),
 	"C11": {
@@ -204,7 +215,7 @@ var engineAssumptions = append([]string{
 	"worker.Pool.Submit = goroutine spawn (may refuse when its context is already done), Pool.Limited(n) = counting semaphore with symbolic capacity, sync.Group = WaitGroup + error list, Backoff.Retry = control-flow model; statemachine.Run is the real code",
 	"logical clock: successive clock readings are concrete and strictly increasing (timestamps matter only through their order; equal readings are not explored)",
 	"Concurrency >= 1 (Block.Defaults), ToleratedFailures any 64-bit value; delays 0; tickers offer at most K ticks",
-	"scheduling: context switches at blocking points, plus at most P deviations (delay bound) from the default newest-goroutine-first scheduler at plugin entry/exit; P and K are in bounds",
+	"scheduling: context switches at blocking points, plus at most P deviations (delay bound) from a deterministic default scheduler at plugin entry/exit; P and K are in bounds. Two default schedulers are used: 'fast plugins' (newest ready goroutine first, the running goroutine continues through plugin entry/exit) and, for runs marked @slow, 'slow plugins' (a goroutine at the end of a plugin call waits until every other goroutine is blocked or waiting there too, longest-waiting first)",
 }, commonAssumptions...)
 
 func eProp(id string, runs []eRun, outside []string) *Property {
@@ -218,8 +229,11 @@ func eProp(id string, runs []eRun, outside []string) *Property {
 		if needs == nil {
 			needs = []string{"plan completed", "plan failed"}
 		}
-		p.Runs = append(p.Runs, Run{Dir: "engine", Pkg: "internal/execute/sm", Fn: r.fn, P: [2]int{r.pq, r.pt}, Ticks: ticks,
-			SwitchOn: []string{"yield:enter", "yield:exit"}, Needs: needs})
+		// "Fn@slow": run under the slow-plugin default scheduler; "Fn@slow:t": the same, thorough tier only
+		fn, tonly := strings.CutSuffix(r.fn, ":t")
+		fn, slow := strings.CutSuffix(fn, "@slow")
+		p.Runs = append(p.Runs, Run{Dir: "engine", Pkg: "internal/execute/sm", Fn: fn, P: [2]int{r.pq, r.pt}, Ticks: ticks,
+			SwitchOn: []string{"yield:enter", "yield:exit"}, Needs: needs, Slow: slow, ThoroughOnly: tonly})
 	}
 	return p
 }
@@ -230,6 +244,11 @@ func init() {
 	properties["C08"].Runs = append(properties["C08"].Runs,
 		Run{Dir: "c05", Pkg: "internal/execute/sm/actions", Fn: "VerifC05Count", Needs: []string{"retry explored"}})
 	properties["C08"].OutsideClaim = append(properties["C08"].OutsideClaim, "attempt-level durability is checked on a single action with Retries <= R (R=2 quick, 3 thorough)")
+	// C02/C04: "including when several plans run on one Workstream": two plans through execute.Plans.Start/Wait.
+	multi := Run{Dir: "c12", Pkg: "internal/execute", Fn: "VerifMulti", P: [2]int{1, 2}, Ticks: [2]int{1, 1}, SwitchOn: []string{"yield:enter", "yield:exit"},
+		Needs: []string{"Wait returned while the other plan was still Running", "actions of both plans in flight together", "one plan failed, the other completed", "two sequences of one block in flight"}}
+	properties["C02"].Runs = append(properties["C02"].Runs, multi)
+	properties["C04"].Runs = append(properties["C04"].Runs, multi)
 	// C01: the context passed to Start may be cancelled by the caller at any time without affecting execution.
 	properties["C01"].Runs = append(properties["C01"].Runs,
 		Run{Dir: "c12", Pkg: "internal/execute", Fn: "VerifC01Cancel", P: [2]int{1, 2}, Ticks: [2]int{1, 1}, SwitchOn: []string{"yield:enter", "yield:exit", "yield:w"},
